@@ -499,6 +499,7 @@ func run(repo, dir string, seed uint64, tier string) error {
 		jobs[i] = j
 	}
 	// in-process stages, 8 workers each with its own child process
+	tIn := time.Now()
 	const nw = 8
 	var firstErr error
 	parallel(nw, nw, func(w int) {
@@ -526,6 +527,7 @@ func run(repo, dir string, seed uint64, tier string) error {
 	if firstErr != nil {
 		return firstErr
 	}
+	out.Stats["inprocess_wall_ms"] = int(time.Since(tIn).Milliseconds())
 	// the binary
 	type unit struct {
 		j  *job
@@ -567,6 +569,7 @@ func run(repo, dir string, seed uint64, tier string) error {
 	}
 	groups := map[string]*group{}
 	sampled := map[string]bool{}
+	var samples []interface{}
 	var gorder []string
 	for _, j := range jobs {
 		c := j.c
@@ -614,11 +617,17 @@ func run(repo, dir string, seed uint64, tier string) error {
 				g.instances = append(g.instances, fmt.Sprintf("%s/%s/%s/%s/%s", c.Base, c.Variant, c.Pos, be, o.Head1()))
 			}
 		}
-		if c.Rule != "none" && c.Base == "minimal" && c.Pos == "inc" && !sampled[c.Rule] && len(sampled)%4 == 0 {
-			out.Sample(map[string]interface{}{"rule": c.Rule, "variant": c.Variant, "pos": c.Pos, "staged": j.ip.Staged, "backend": j.bes[0], "binary": j.obs[j.bes[0]].class()})
+		if c.Rule != "none" && c.Base == "minimal" && c.Pos == "inc" && !sampled[c.Rule] {
+			sampled[c.Rule] = true
+			be := j.bes[0]
+			samples = append(samples, map[string]interface{}{"rule": c.Rule, "variant": c.Variant, "pos": c.Pos, "in_process": j.ip.Staged,
+				"args": strings.Join(caseArgs(c, be), " "), "binary": j.obs[be].class(), "exit": j.obs[be].Exit, "files_written": j.obs[be].Files})
 		}
-		sampled[c.Rule] = true
 	}
+	for k := 0; k < len(samples); k += (len(samples) + 7) / 8 {
+		out.Sample(samples[k])
+	}
+	tMin := time.Now()
 	for _, key := range gorder {
 		g := groups[key]
 		tm := time.Now()
@@ -628,6 +637,7 @@ func run(repo, dir string, seed uint64, tier string) error {
 		out.Fail(f)
 		fmt.Fprintf(os.Stderr, "c04: minimised %s in %v\n", key, time.Since(tm).Round(time.Millisecond))
 	}
+	out.Stats["minimise_wall_ms"] = int(time.Since(tMin).Milliseconds())
 	os.RemoveAll(root)
 	os.RemoveAll(filepath.Join(dir, "min"))
 	out.Close()
